@@ -1279,9 +1279,11 @@ func (x *Exec) pureAppN(fn *ssa.Function, fc *FuncContract, args []Val, st *Stat
 }
 
 // checkPure: syntactic purity: no stores to pre-existing memory, no goroutines/defers, callees pure.
-var pureDepth int // recursion depth of checkPure through callees without contracts (checks run one at a time per function)
-
 func (w *World) checkPure(fn *ssa.Function, ignores string) string {
+	return w.checkPureD(fn, ignores, 0)
+}
+
+func (w *World) checkPureD(fn *ssa.Function, ignores string, pureDepth int) string {
 	ign := map[string]bool{}
 	for _, f := range strings.Split(ignores, ",") {
 		if f != "" {
@@ -1388,9 +1390,7 @@ func (w *World) checkPure(fn *ssa.Function, ignores string) string {
 						cfc := pk.Contracts.Funcs[ContractKey(callee)]
 						if cfc == nil && callee != fn && len(callee.Blocks) > 0 && pureDepth < 6 {
 							// a callee without a contract is verified through its body: it must itself pass this check
-							pureDepth++
-							why := w.checkPure(callee, ignores)
-							pureDepth--
+							why := w.checkPureD(callee, ignores, pureDepth+1)
 							if why != "" {
 								return "calls " + InstName(callee) + ", which " + why
 							}
